@@ -521,9 +521,10 @@ void _vnacal_new_solve_update_s_matrices(vnacal_new_solve_state_t *vnssp)
 	    for (int s_column = 0; s_column < s_columns; ++s_column) {
 		const int s_cell = s_row * s_columns + s_column;
 		vnacal_new_parameter_t *vnprp = vnmp->vnm_s_matrix[s_cell];
-		int uindex = vnprp->vnpr_unknown_index;
 
 		if (vnprp != NULL && vnprp->vnpr_unknown) {
+		    int uindex = vnprp->vnpr_unknown_index;
+
 		    s_matrix[s_cell] = vnssp->vnss_p_vector[uindex][findex];
 		}
 	    }
